@@ -91,35 +91,52 @@ def _merge(repo: Repo, rep: Report) -> None:
     declared = [st.target.id for st in ci.node.body if isinstance(st, ast.AnnAssign) and isinstance(st.target, ast.Name)]
     options = [d for d in declared if d != "serialization_strategy"]
     fi = repo.func(M_DIALECT, "Dialect.merge")
-    handled: Set[str] = set()
-    loop_idx = None
-    for i, st in enumerate(fi.node.body):
-        if isinstance(st, ast.For) and isinstance(st.iter, (ast.Tuple, ast.List)) and all(isinstance(e, ast.Constant) for e in st.iter.elts):
-            if any("setattr" in ast.unparse(x) for x in ast.walk(st)):
-                handled |= {e.value for e in st.iter.elts}
-                loop_idx = i
-        if isinstance(st, ast.Assign) and isinstance(st.targets[0], ast.Attribute) and ast.unparse(st.targets[0].value) == "new_dialect":
-            handled.add(st.targets[0].attr)
-    for st in ast.walk(fi.node):
-        if isinstance(st, ast.Call) and ast.unparse(st.func) == "setattr" and len(st.args) == 3 and isinstance(st.args[1], ast.Constant):
-            handled.add(st.args[1].value)
+    # evaluated semantically: on every path the merged class receives every declared option (from `other` when it sets the
+    # option, else from `cls`) and is the value returned
+    from ..core.pe import Path as _Path
+    from ..core.scen import make_eval as _make_eval
+    from ..core.values import Func as _Func, V as _V
+
+    ev = _make_eval(repo, inline_depth=2, empty_loops=True, max_steps=2000000)
+    ev.inline_modules = frozenset(set(ev.inline_modules) | {M_DIALECT})
+    dummy = ast.parse("f(x)").body[0].value
+    res = ev.call_func(_Func(fi, self_v=Sym("cls")), [Sym("other")], {}, _Path(), dummy, force=True)
+    n_paths = 0
+    missing: Dict[str, int] = {}
+    wrong_src: Set[str] = set()
+    bad_ret = 0
+    for v, q in res:
+        if q.ctl == "raise":
+            continue
+        n_paths += 1
+        sets = [(show(e[1]) if isinstance(e[1], _V) else str(e[1]), e[2].v if hasattr(e[2], "v") else show(e[2]), e[3] if len(e) > 3 else None) for e in q.events if e and e[0] == "setattr"]
+        targets = {t for t, _, _ in sets}
+        keys = {k for t, k, _ in sets if t == show(v)}
+        if show(v) not in targets:
+            bad_ret += 1
+        for o in options:
+            if o not in keys:
+                missing[o] = missing.get(o, 0) + 1
+        for t, k, val in sets:
+            if k in options and val is not None:
+                txt = show(val) if isinstance(val, _V) else str(val)
+                at = {a: b for a, b in q.atoms.items() if f"other, {k}" in a or f"other.{k}" in a}
+                if "cls" not in txt and "other" not in txt and "others_value" not in txt:
+                    wrong_src.add(f"{k} = {txt[:40]}")
+    if n_paths < 2:
+        rep.undecide("R13.1", f"Dialect.merge: only {n_paths} evaluated paths")
     for o in options:
-        if o in handled:
-            rep.ok("R13.1", f"Dialect.merge transfers {o}", None)
+        if o in missing:
+            rep.violation("R13.1", fi.key, f"option {o} not transferred by Dialect.merge", f"a default_dialect's {o} is lost in codecs that merge it into a format dialect ({missing[o]} of {n_paths} paths)", loc=fi.loc)
         else:
-            rep.violation("R13.1", fi.key, f"option {o} not transferred by Dialect.merge", f"a default_dialect's {o} is lost in codecs that merge it into a format dialect", loc=fi.loc)
+            rep.ok("R13.1", f"Dialect.merge transfers {o} on all {n_paths} paths", None)
+    for w in sorted(wrong_src):
+        rep.violation("R13.1", fi.key, f"merged option takes neither side's value: {w}", "a merged option must be the other dialect's value when it sets one, else this dialect's", loc=fi.loc)
+    if bad_ret:
+        rep.violation("R13.1", fi.key, "Dialect.merge returns something else than the class it filled", "the merged dialect must be returned after transferring every option on every path", loc=fi.loc)
+    else:
+        rep.ok("R13.1", "merge returns the new dialect after the option transfer", None)
     rep.floor("R13.1", 4)
-    # every return is the merged dialect, after the transfer loop, at function level
-    rets = [n for n in walk_no_nested(fi.node) if isinstance(n, ast.Return)]
-    top = [st for st in fi.node.body if isinstance(st, ast.Return)]
-    for r in rets:
-        at_top = any(r is t for t in top)
-        idx = fi.node.body.index(r) if at_top else -1
-        if not at_top or loop_idx is None or idx < loop_idx or ast.unparse(r.value) != "new_dialect":
-            rep.violation("R13.1", fi.key, f"return `{ast.unparse(r)[:60]}` bypasses the option transfer",
-                          "Dialect.merge must return the merged dialect after transferring every option on every path", loc=f"{fi.loc.rsplit(':', 1)[0]}:{r.lineno}")
-        else:
-            rep.ok("R13.1", "merge returns the new dialect after the option transfer", None)
     # R13.2
     src = "\n".join(m.source for m in repo.modules.values())
     for o in options:
